@@ -37,6 +37,40 @@ open Hidi Hidi.Led Hidi.LedLemmas Hidi.LedSpec Hidi.EngineSim
     checked setter; a MIDI-input Note On with velocity 0 is treated as Note Off -/
 theorem C17_source_facts : Gen.ledUncheckedWrites = 0 ∧ Gen.midiInVelocityZeroIsOff = true := by decide
 
+/-- the indicator paints regenerated from the LED loop of `handleOpenrgb` — every `paintAction(action, colour)` call in source
+    order with the conditions of its enclosing `if`s — are the rows of the model's `Led.actionPaints` (same order, same
+    guards, same colours: `white1/2/3` = 27 / 100 / 255 grey, `chanColor` = `channelColors[d.channel]`, the dimmed colour =
+    each component divided by 3, panic = red 0xff) -/
+theorem C17_action_paints_source :
+    Gen.ledActionPaints =
+      [("", "config.Panic", "openrgb.Color{Red: 0xff}"),
+       ("", "config.OctaveUp", "white1"),
+       ("", "config.OctaveDown", "white1"),
+       ("d.octave > 0 && d.octave == 1", "config.OctaveUp", "white2"),
+       ("d.octave > 0 && !(d.octave == 1)", "config.OctaveUp", "white3"),
+       ("d.octave < 0 && d.octave == -1", "config.OctaveDown", "white2"),
+       ("d.octave < 0 && !(d.octave == -1)", "config.OctaveDown", "white3"),
+       ("", "config.SemitoneUp", "white1"),
+       ("", "config.SemitoneDown", "white1"),
+       ("d.semitone > 0 && d.semitone == 1", "config.SemitoneUp", "white2"),
+       ("d.semitone > 0 && !(d.semitone == 1)", "config.SemitoneUp", "white3"),
+       ("d.semitone < 0 && d.semitone == -1", "config.SemitoneDown", "white2"),
+       ("d.semitone < 0 && !(d.semitone == -1)", "config.SemitoneDown", "white3"),
+       ("", "config.MappingUp", "white3"),
+       ("", "config.MappingDown", "white3"),
+       ("d.mapping == 0", "config.MappingDown", "white1"),
+       ("d.mapping == len(d.config.KeyMappings)-1", "config.MappingUp", "white1"),
+       ("", "config.ChannelUp", "chanColor"),
+       ("", "config.ChannelDown", "chanColor"),
+       ("d.channel == 0", "config.ChannelDown", "openrgb.Color{ Red: chanColor.Red / 3, Green: chanColor.Green / 3, Blue: chanColor.Blue / 3, }"),
+       ("d.channel == 15", "config.ChannelUp", "openrgb.Color{ Red: chanColor.Red / 3, Green: chanColor.Green / 3, Blue: chanColor.Blue / 3, }"),
+       ("", "config.Multinote", "white1")] ∧
+    Gen.ledLocalColors =
+      [("white1", "openrgb.Color{Red: 27, Green: 27, Blue: 27}"), ("white2", "openrgb.Color{Red: 100, Green: 100, Blue: 100}"),
+       ("white3", "openrgb.Color{Red: 255, Green: 255, Blue: 255}"), ("chanColor", "channelColors[d.channel]")] ∧
+    white1 = ⟨27, 27, 27⟩ ∧ white2 = ⟨100, 100, 100⟩ ∧ white3 = ⟨255, 255, 255⟩ ∧ red = ⟨255, 0, 0⟩ := by
+  decide
+
 /-- LED names are distinct, so `LedNameToKey` (built by ranging over a Go map) is well defined -/
 theorem C17_led_names_distinct : (Gen.keyToLedName.map (·.2)).Nodup := by decide
 
